@@ -47,6 +47,15 @@ pub struct Case {
     /// few times on the thread just before the visit (earlier activity that must not leak)
     #[serde(default)]
     pub pred: Vec<Fb>,
+    /// environment of the visit, bit field: 1 = the visited object is constructed BEFORE the
+    /// predecessor is sampled (two live objects, used in the other order); 2 = a rejected bulk
+    /// request (`sample_matrix(3, 0)`, unwind caught) happens on the thread first; 4 = MVN only: a
+    /// second model with the same dimension and variances but other correlations is built first
+    #[serde(default)]
+    pub env: u8,
+    /// allocator fill policy of the run's thread (index into Fill::ALL; 0 = pass)
+    #[serde(default)]
+    pub fill: u8,
 }
 
 pub const DRAW_BUDGET: u64 = 100_000;
@@ -504,7 +513,9 @@ impl Prop for C03 {
                 }
             }
         }
-        Case { law: law.to_string(), params: fbs(&params), seeding, api, n, script, aux, via, default_ctor, pred }
+        let env = (r.below(2) as u8) | if r.chance(0.2) { 2 } else { 0 } | if visit % 2 == 1 { 4 } else { 0 };
+        let fill = if r.chance(0.6) { 0 } else { 1 + r.below(4) as u8 };
+        Case { law: law.to_string(), params: fbs(&params), seeding, api, n, script, aux, via, default_ctor, pred, env, fill }
     }
 
     fn exec(case: &Case, st: &mut Stats) -> Option<Viol> {
@@ -514,6 +525,16 @@ impl Prop for C03 {
         h.s(law);
         h.fs(&p);
         case.seeding.apply();
+        if case.fill > 0 {
+            crate::alloc_seam::set_policy(crate::alloc_seam::Fill::ALL[(case.fill as usize).min(4)], false, case.aux.0);
+            st.inc("config.fill_policy_active");
+        }
+        if case.env & 2 != 0 {
+            // a bulk request that is rejected (a shape with one zero dimension): the unwind is caught
+            // and the thread carries on; whatever the library leaves behind must not matter
+            st.inc("config.after_rejected_bulk_request");
+            let _ = catch(|| compute::distributions::Distribution1D::sample_matrix(&compute::distributions::Uniform::new(0.0, 1.0), 3, 0));
+        }
         let script: Vec<(u64, u64)> = case.script.iter().map(|f| (f.at, f.raw.0)).collect();
         alea::sim::set_script(&script);
         let faulty = !script.is_empty();
@@ -593,6 +614,18 @@ impl Prop for C03 {
             c.pred.clear();
             out.push(c);
         }
+        for bit in [1u8, 2, 4] {
+            if case.env & bit != 0 {
+                let mut c = case.clone();
+                c.env &= !bit;
+                out.push(c);
+            }
+        }
+        if case.fill != 0 {
+            let mut c = case.clone();
+            c.fill = 0;
+            out.push(c);
+        }
         if case.default_ctor {
             let mut c = case.clone();
             c.default_ctor = false;
@@ -647,7 +680,7 @@ impl Prop for C03 {
                 v.push(k);
             }
         }
-        for k in ["api.sample_loop", "api.sample_n", "api.sample_matrix", "seeding.seed_clock", "seeding.seed_small", "seeding.seed_set", "config.fault_free", "config.fault_injecting", "config.reached_by_update", "config.off_grid", "fault.rng_zero", "fault.rng_max", "fault.rng_tiny", "fault.rng_half", "fault.rng_tail", "fault.rng_streak", "fault.rng_pair", "fault.rng_zig_edge", "config.default_ctor", "config.preceded_by_other_object", "config.mvn_structured", "check.dkw", "check.mvn_projection", "check.serial_independence", "dpc.Normal.1", "dpc.Normal.2", "dpc.Normal.3+", "dpc.Poisson.4+", "dpc.Binomial.4+", "dpc.Gamma.4+"] {
+        for k in ["api.sample_loop", "api.sample_n", "api.sample_matrix", "seeding.seed_clock", "seeding.seed_small", "seeding.seed_set", "config.fault_free", "config.fault_injecting", "config.reached_by_update", "config.off_grid", "fault.rng_zero", "fault.rng_max", "fault.rng_tiny", "fault.rng_half", "fault.rng_tail", "fault.rng_streak", "fault.rng_pair", "fault.rng_zig_edge", "config.default_ctor", "config.preceded_by_other_object", "config.two_live_objects", "config.after_rejected_bulk_request", "config.mvn_preceded_by_sibling", "config.fill_policy_active", "config.mvn_structured", "check.dkw", "check.mvn_projection", "check.serial_independence", "dpc.Normal.1", "dpc.Normal.2", "dpc.Normal.3+", "dpc.Poisson.4+", "dpc.Binomial.4+", "dpc.Gamma.4+"] {
             v.push(k.to_string());
         }
         v
@@ -677,16 +710,25 @@ fn exec_1d(case: &Case, law: &str, p: &[f64], reg: &str, st: &mut Stats, h: &mut
     }
     let via = unfb(&case.via);
     let pred = unfb(&case.pred);
+    let sample_pred = |o: &Obj| {
+        for _ in 0..5 {
+            alea::sim::set_budget(DRAW_BUDGET);
+            if catch(|| o.sample()).is_err() {
+                break;
+            }
+        }
+        alea::sim::clear_budget();
+    };
+    let mut pred_obj: Option<Obj> = None;
     if pred.len() == p.len() && super::c18::valid(law, &pred) {
         st.inc("config.preceded_by_other_object");
         if let Ok(o) = catch(|| Obj::new(law, &pred)) {
-            for _ in 0..5 {
-                alea::sim::set_budget(DRAW_BUDGET);
-                if catch(|| o.sample()).is_err() {
-                    break;
-                }
+            if case.env & 1 == 0 {
+                sample_pred(&o);
+            } else {
+                // both objects alive before either is sampled; the predecessor is sampled first
+                pred_obj = Some(o);
             }
-            alea::sim::clear_budget();
         }
     }
     let obj = if case.default_ctor && slice_bits_eq(p, &super::c18::default_params_pub(law)).is_none() {
@@ -718,6 +760,10 @@ fn exec_1d(case: &Case, law: &str, p: &[f64], reg: &str, st: &mut Stats, h: &mut
             Err(m) => return mk("constructor", "valid_rejected", format!("{}::new({:?}) panicked: {}", law, p, m)),
         }
     };
+    if let Some(o) = &pred_obj {
+        st.inc("config.two_live_objects");
+        sample_pred(o);
+    }
     let n = match case.api {
         Api::SampleMatrix(r) => (case.n / r.max(1)) * r.max(1),
         _ => case.n,
@@ -901,6 +947,25 @@ fn exec_mvn(case: &Case, p: &[f64], st: &mut Stats, h: &mut H64, faulty: bool) -
         Some(l) => l,
         None => return None,
     };
+    if case.env & 4 != 0 && d >= 2 {
+        // another model first: same dimension, same variances, correlations of opposite sign where
+        // i + j is odd (D C D with D = diag(1, -1, 1, ..): still positive definite); it is sampled once
+        st.inc("config.mvn_preceded_by_sibling");
+        let mut c2 = cov.clone();
+        for i in 0..d {
+            for j in 0..d {
+                if (i + j) % 2 == 1 {
+                    c2[i * d + j] = -c2[i * d + j];
+                }
+            }
+        }
+        let m2 = mean.clone();
+        if let Ok(sib) = catch(move || MVN::new(m2, Matrix::new(c2, d as i32, d as i32))) {
+            alea::sim::set_budget(DRAW_BUDGET);
+            let _ = catch(|| sib.sample());
+            alea::sim::clear_budget();
+        }
+    }
     let (mc, cc) = (mean.clone(), cov.clone());
     let mvn = match catch(move || MVN::new(mc, Matrix::new(cc, d as i32, d as i32))) {
         Ok(m) => m,
